@@ -111,5 +111,15 @@ contract('ProxyQueue.enqueue', module=MPX, props=['C02'],
                   '        lambda v: settled_ok(v))))',
                   'implies(self.relay.last_outcome == 3 or self.relay.last_outcome == 4, isinstance(result[0][1], RelayError))'],
          raises={'OtherException': []},
-         modifies=['self.relay.last_outcome', 'fresh'])
+         modifies=['self.relay.last_outcome', 'fresh'],
+         locals={'failure': 'RcptResult'},
+         loops={0: dict(modifies=[],
+                        inv=['implies(failure is not None, isinstance(failure, RelayError))',
+                             # quantified over KEYS (position of a key in the iteration order: dict_index)
+                             'implies(failure is None, forall(Str, lambda r: implies(dict_has(cast(results, Dict[Str, RcptResult]), r) '
+                             '        and dict_index(cast(results, Dict[Str, RcptResult]), r) < _k, '
+                             '        settled_ok(dict_get(cast(results, Dict[Str, RcptResult]), r)))))']),
+                1: dict(modifies=[],
+                        inv=['implies(failure is not None, isinstance(failure, RelayError))',
+                             'implies(failure is None, forall(range(0, _k), lambda j: settled_ok(_seq1[j])))'])})
 predicate('settled_ok(v)', 'v is None or isinstance(v, Reply)')
